@@ -43,6 +43,8 @@ def oracle_replay(ctx, seed_recs, ply, props, text=False, attacks=False, game_sa
 def absorb_replay(ctx, summ, prop=None):
     """Fold a harness replay summary into the context for property `prop` (default ctx.prop)."""
     prop = prop or ctx.prop
+    # every oracle state is a TLC-generated behaviour replayed into the implementation
+    ctx.traces += summ.get("records", 0)
     ctx.evaluations += summ["evaluations"].get(prop, 0)
     ctx.nontrivial += summ.get("nontrivial", {}).get(prop, 0)
     n = 0
